@@ -4,15 +4,25 @@ import IkeModel
 
 namespace Ike
 
-/-- rewrite one checked Go primitive to its `ok` form, discharging the bounds by `omega` -/
+@[simp] theorem put16_length (v : UInt16) : (put16 v).length = 2 := rfl
+@[simp] theorem put32_length (v : UInt32) : (put32 v).length = 4 := rfl
+@[simp] theorem put64_length (v : UInt64) : (put64 v).length = 8 := rfl
+
+/-- linear arithmetic about list lengths -/
+macro "len_omega" : tactic => `(tactic| first
+  | omega
+  | (simp only [List.length_cons, List.length_append, List.length_nil, List.length_drop, List.length_take,
+      List.length_replicate, zeros_length, put16_length, put32_length, put64_length] at *; omega))
+
+/-- rewrite one checked Go primitive to its `ok` form, discharging the bounds by `len_omega` -/
 macro "go_ok" : tactic => `(tactic| first
-  | rw [goIndex_ok (by omega)]
-  | rw [goU16_ok (by omega)]
-  | rw [goU32_ok (by omega)]
-  | rw [goU64_ok (by omega)]
-  | rw [goSlice_ok (by omega) (by omega)]
-  | rw [goFrom_ok (by omega)]
-  | rw [goTo_ok (by omega)])
+  | rw [goIndex_ok (by len_omega)]
+  | rw [goU16_ok (by len_omega)]
+  | rw [goU32_ok (by len_omega)]
+  | rw [goU64_ok (by len_omega)]
+  | rw [goSlice_ok (by len_omega) (by len_omega)]
+  | rw [goFrom_ok (by len_omega)]
+  | rw [goTo_ok (by len_omega)])
 
 /-- step through a straight-line `Res` computation: evaluate binds, rewrite primitives -/
 macro "go_steps" : tactic => `(tactic| repeat (first | go_ok | simp only [Res.bind_ok, Res.pure_eq, Res.map_ok] | simp only [Nat.reduceAdd] at *))
